@@ -1,7 +1,10 @@
 (* C03 - well-formed package databases are reported completely and exactly.
    Only statements here; proofs are in the <Format>Proofs.v files. *)
-From Coq Require Import List NArith Bool.
-From Scalibr Require Import Formats.Lines Formats.Apk Formats.ApkProofs.
+From Coq Require Import List NArith Bool Permutation.
+From Scalibr Require Import Formats.Lines Formats.Apk Formats.ApkProofs Formats.Gradle Formats.GradleProofs
+  Formats.Gemfile Formats.GemfileProofs Formats.Dpkg Formats.DpkgProofs
+  Formats.Structs Formats.StructsProofs Formats.Structs2 Formats.Structs2Proofs
+  Formats.Requirements Formats.RequirementsProofs.
 Import ListNotations.
 Open Scope N_scope.
 
@@ -35,3 +38,197 @@ Proof. vm_compute. reflexivity. Qed.
 Example apk_example_run :
   parse_apk (render_apk ex_apk_rs ex_apk_l) = Ok [([109;117;115;108], [49;46;50;45;114;48]); ([122], [49])].
 Proof. vm_compute. reflexivity. Qed.
+
+(* ------------------------------------------------------------------ gradle.lockfile (byte level) *)
+(* Any number of group:artifact:version=configurations lines, each optionally indented / followed by
+   blanks, LF or CRLF per line, with blank lines, # comments and empty=... lines anywhere, final
+   newline or not: exactly the listed coordinates come out, in order. *)
+Theorem gradle_roundtrip : forall rs l,
+  wf_gr_records rs = true -> wf_gr_layout rs l = true ->
+  parse_gradle (render_gradle rs l) = Ok (expected_gradle rs).
+Proof. exact gradle_roundtrip_lemma. Qed.
+Print Assumptions gradle_roundtrip.
+
+Definition ex_gr_rs : list gr_rec :=
+  [ {| g_group := [101;109;112;116;121]; g_artifact := [97]; g_version := [49;46;48]; g_configs := [99;112] |};
+    {| g_group := [111;114;103]; g_artifact := [98;45;99]; g_version := [50]; g_configs := [] |} ].
+Definition ex_gr_l : gr_layout :=
+  {| gl_recs := [ {| gl_before := [(NComment [] [32;104;105], CRLF); (NBlank [32], LF)]; gl_lead := [32;9]; gl_trail := [32]; gl_eol := CRLF |} ];
+     gl_after := [(NEmpty [] [], LF)]; gl_final_nl := false |}.
+Example gradle_example_wf : wf_gr_records ex_gr_rs && wf_gr_layout ex_gr_rs ex_gr_l = true.
+Proof. vm_compute. reflexivity. Qed.
+Example gradle_example_run :
+  parse_gradle (render_gradle ex_gr_rs ex_gr_l) = Ok [([101;109;112;116;121;58;97], [49;46;48]); ([111;114;103;58;98;45;99], [50])].
+Proof. vm_compute. reflexivity. Qed.
+
+(* ------------------------------------------------------------------ Gemfile.lock (byte level) *)
+(* Any number of source sections (GIT / GEM / PATH / PLUGIN SOURCE) with any number of 4-space spec
+   lines "name (version[-platform])[!]", attribute and dependency lines at other indentations, blank
+   lines, and any other sections (PLATFORMS, DEPENDENCIES, ...) in between, LF or CRLF per line,
+   final newline or not: exactly the specs of the source sections come out, in file order. *)
+Theorem gemfile_roundtrip : forall rs l,
+  wf_gem_records rs = true -> wf_gem_layout rs l = true ->
+  parse_gemfile (render_gemfile rs l) = Ok (expected_gemfile rs).
+Proof. exact gemfile_roundtrip_lemma. Qed.
+Print Assumptions gemfile_roundtrip.
+
+Definition ex_gem_rs : list gem_sec :=
+  [ {| sec_kind := KGit; sec_specs := [ {| gs_name := [102;111;111]; gs_version := [49;46;48]; gs_platform := None |} ] |};
+    {| sec_kind := KGem; sec_specs := [ {| gs_name := [97;115;116]; gs_version := [50;46;52]; gs_platform := Some [106;97;118;97] |};
+                                        {| gs_name := [98]; gs_version := [51]; gs_platform := None |} ] |} ].
+Definition ex_gem_l : gem_layout :=
+  {| ly_secs := [ {| cl_pre := []; cl_eol := CRLF;
+                     cl_specs := [ {| sl_before := [(GOther 2 [114;101;118;105;115;105;111;110;58;32;97], LF); (GOther 2 [115;112;101;99;115;58], LF)]; sl_bang := true; sl_eol := LF |} ];
+                     cl_after := [(GOther 6 [98;97;114], LF)] |};
+                  {| cl_pre := [BBlank LF; BSection [80;76;65;84;70;79;82;77;83] LF [(Some [32;114;117;98;121], LF); (Some [32;32;32;120;32;40;57;41], LF); (None, LF)]];
+                     cl_eol := LF; cl_specs := []; cl_after := [] |} ];
+     ly_tail := [BBlank CRLF; BSection [68;69;80;83] LF [(Some [32;102;111;111;33], LF)]]; ly_final_nl := false |}.
+Example gemfile_example_wf : wf_gem_records ex_gem_rs && wf_gem_layout ex_gem_rs ex_gem_l = true.
+Proof. vm_compute. reflexivity. Qed.
+Example gemfile_example_run :
+  parse_gemfile (render_gemfile ex_gem_rs ex_gem_l) = Ok [([102;111;111], [49;46;48]); ([97;115;116], [50;46;52]); ([98], [51])].
+Proof. vm_compute. reflexivity. Qed.
+
+(* ------------------------------------------------------------------ dpkg status (byte level) *)
+(* Any number of stanzas; Package / Version / Status at any position among any other fields
+   (single-line or with continuation lines, any legal field-name capitalisation, blanks around values,
+   Source in either shape), LF or CRLF per line, one or more blank lines between stanzas, leading and
+   trailing blank lines, last stanza with or without its final newline.  Reported = exactly the stanzas
+   whose Status state word is "installed" (sd = true, the status.d directory: also stanzas without a
+   Status field), in file order.  The model includes the part of net/textproto's ReadMIMEHeader that the
+   extractor relies on (continuation joining, key canonicalisation, byte validation). *)
+Theorem dpkg_roundtrip : forall sd rs l,
+  wf_dpkg_records sd rs = true -> wf_dpkg_layout rs l = true ->
+  parse_dpkg sd (render_dpkg rs l) = Ok (expected_dpkg sd rs).
+Proof. exact dpkg_roundtrip_lemma. Qed.
+Print Assumptions dpkg_roundtrip.
+
+Definition ex_dpkg_rs : list dpkg_rec :=
+  [ {| dr_name := [108;105;98;99;54]; dr_version := [50;46;51;54;45;57];
+       dr_status := Some ([105;110;115;116;97;108;108], [111;107], [105;110;115;116;97;108;108;101;100]);
+       dr_fields := [ DOther [68;101;115;99;114;105;112;116;105;111;110] [32] [71;78;85] [] [([32], [46]); ([32;32], [108;105;98])];
+                      DSource [103;108;105;98;99] (Some [50;46;51;54]) ] |};
+    {| dr_name := [111;108;100]; dr_version := [49];
+       dr_status := Some ([100;101;105;110;115;116;97;108;108], [111;107], [99;111;110;102;105;103;45;102;105;108;101;115]);
+       dr_fields := [] |} ].
+Definition ex_dpkg_l : dpkg_layout :=
+  {| dy_lead := [LF];
+     dy_recs := [ {| dl_posS := 1; dl_posV := 3; dl_posP := 0; dl_gap := [32]; dl_eols := [CRLF; LF; CRLF]; dl_sep1 := CRLF; dl_sep := [LF] |} ];
+     dy_trail := []; dy_final_nl := false |}.
+Example dpkg_example_wf : wf_dpkg_records false ex_dpkg_rs && wf_dpkg_layout ex_dpkg_rs ex_dpkg_l = true.
+Proof. vm_compute. reflexivity. Qed.
+Example dpkg_example_run :
+  parse_dpkg false (render_dpkg ex_dpkg_rs ex_dpkg_l) = Ok [([108;105;98;99;54], [50;46;51;54;45;57])].
+Proof. vm_compute. reflexivity. Qed.
+
+(* ------------------------------------------------------------------ requirements.txt (byte level) *)
+(* The full statement is FALSE for the extractor: well-formed pinned requirements (PEP 508 names) are
+   dropped or mangled.  Witness: "Flask-Caching==2.0.1 / Flask-Cors==3.0.10" come out as two ("Flask", "")
+   (the per-requirement option pattern "-C" is searched anywhere in the line); names with '.' such as
+   zope.interface, and one-letter names, are dropped by the extractor's own name pattern.
+   KNOWN_FINDINGS.d/C03.json: requirements-option-marker-in-name, requirements-dotted-name-dropped. *)
+Theorem requirements_roundtrip_refuted :
+  exists rs l, wf_rq_records rs = true /\ wf_rq_layout rs l = true /\
+               parse_requirements (render_requirements rs l) <> Ok (expected_requirements rs).
+Proof. exact requirements_refuted_lemma. Qed.
+Print Assumptions requirements_roundtrip_refuted.
+
+(* On the domain D (names accepted by the extractor's name pattern; no requirement line containing
+   --hash / --global-option / --config-settings / -C) the pinned sub-grammar round-trips: any number of
+   name==version lines with blanks around name, == and version, LF or CRLF, comment / blank / option
+   lines (-i, --index-url, -e ...) anywhere, final newline or not. *)
+Theorem requirements_roundtrip_on_D : forall rs l,
+  wf_rq_records rs = true -> wf_rq_layout rs l = true -> rq_in_D rs l = true ->
+  parse_requirements (render_requirements rs l) = Ok (expected_requirements rs).
+Proof. exact requirements_on_D_lemma. Qed.
+Print Assumptions requirements_roundtrip_on_D.
+
+Definition ex_rq_rs : list rq_rec :=
+  [ {| rq_name := [80;121;89;65;77;76]; rq_version := [54;46;48] |};
+    {| rq_name := [97;45;98]; rq_version := [49;46;48;46;112;111;115;116;49] |} ].
+Definition ex_rq_l : rq_layout :=
+  {| ry_recs := [ {| rl_before := [(RComment [] [32;112;105;110;110;101;100], LF); (ROption [105;32;104;116;116;112;115;58;47;47;120], CRLF)];
+                     rl_lead := [32]; rl_ws1 := [32]; rl_ws2 := [9]; rl_trail := [32]; rl_eol := CRLF |} ];
+     ry_after := [(RBlank [], LF)]; ry_final_nl := true |}.
+Example requirements_example_wf : wf_rq_records ex_rq_rs && wf_rq_layout ex_rq_rs ex_rq_l && rq_in_D ex_rq_rs ex_rq_l = true.
+Proof. vm_compute. reflexivity. Qed.
+Example requirements_example_run :
+  parse_requirements (render_requirements ex_rq_rs ex_rq_l) = Ok [([80;121;89;65;77;76], [54;46;48]); ([97;45;98], [49;46;48;46;112;111;115;116;49])].
+Proof. vm_compute. reflexivity. Qed.
+Example requirements_flask_observed :
+  parse_requirements (render_requirements rq_flask rq_plain_layout) = Ok [([70;108;97;115;107], []); ([70;108;97;115;107], [])].
+Proof. vm_compute. reflexivity. Qed.
+Example requirements_zope_observed : parse_requirements (render_requirements rq_zope rq_plain_layout) = Ok [].
+Proof. vm_compute. reflexivity. Qed.
+
+(* ================================================================== structure level
+   The decoder (encoding/json, BurntSushi TOML) is trusted to hand the extractor the structure the
+   file encodes; the model is the extractor's loop over that structure.  Go map iteration order is
+   arbitrary, hence "Permutation" where the extractor walks a map. *)
+
+(* composer.lock: packages then packages-dev, nothing merged, nothing dropped *)
+Theorem composer_struct_exact : forall rs,
+  exists out, extract_composer (struct_of_composer rs) = Ok out /\ Permutation out (expected_all rs).
+Proof. exact composer_struct_exact_lemma. Qed.
+Print Assumptions composer_struct_exact.
+
+(* Cargo.lock / poetry.lock: the [[package]] array in file order *)
+Theorem cargo_struct_exact : forall rs, extract_cargo (struct_of_pkglist rs) = Ok (expected_all rs).
+Proof. exact cargo_struct_exact_lemma. Qed.
+Print Assumptions cargo_struct_exact.
+Theorem poetry_struct_exact : forall rs, extract_poetry (struct_of_pkglist rs) = Ok (expected_all rs).
+Proof. exact poetry_struct_exact_lemma. Qed.
+Print Assumptions poetry_struct_exact.
+
+(* packages.lock.json: every (framework, package) entry, for any map iteration order *)
+Theorem nuget_struct_exact : forall rs st,
+  nuget_iter_order st (struct_of_nuget rs) ->
+  exists out, extract_nuget st = Ok out /\ Permutation out (expected_nuget rs).
+Proof. exact nuget_struct_exact_lemma. Qed.
+Print Assumptions nuget_struct_exact.
+
+(* Pipfile.lock: distinct pinned packages (names without '@') of default and develop all come out,
+   the "==" stripped, none merged by the name@version key *)
+Theorem pipfile_struct_exact : forall rs, wf_pipfile rs = true ->
+  exists out, extract_pipfile (struct_of_pipfile rs) = Ok out /\ Permutation out (expected_all rs).
+Proof. exact pipfile_struct_exact_lemma. Qed.
+Print Assumptions pipfile_struct_exact.
+
+Definition ex_lrecs : list lrec :=
+  [ {| lr_name := [97]; lr_version := [49;46;48]; lr_dev := true |};
+    {| lr_name := [98]; lr_version := [50]; lr_dev := false |};
+    {| lr_name := [97]; lr_version := [51]; lr_dev := false |} ].
+Example pipfile_example_wf : wf_pipfile ex_lrecs = true.
+Proof. vm_compute. reflexivity. Qed.
+Example pipfile_example_run : extract_pipfile (struct_of_pipfile ex_lrecs) = Ok [([98], [50]); ([97], [51]); ([97], [49;46;48])].
+Proof. vm_compute. reflexivity. Qed.
+(* the key quirk the domain excludes: "a@b"@"c" and "a"@"b@c" collide *)
+Example pipfile_key_collision :
+  extract_pipfile {| ps_default := [([97;64;98], [61;61;99]); ([97], [61;61;98;64;99])]; ps_develop := [] |} = Ok [([97;64;98], [99])].
+Proof. vm_compute. reflexivity. Qed.
+
+(* package-lock.json, lockfileVersion 2 and 3 ("packages" map; a v2 file's legacy "dependencies" tree is
+   ignored by the extractor): any number of registry packages installed at node_modules/<name> under any
+   prefix (hoisted, nested, workspace), plain and @scope/name names recovered from the path, the root
+   entry "" skipped.  Version 1 (nested "dependencies") is covered by the correspondence run and the
+   expected_v1 oracle only. *)
+Theorem packagelock_struct_exact : forall root rs, wf_packagelock rs = true ->
+  extract_packagelock (struct_of_packagelock root rs) = Ok (expected_packagelock rs).
+Proof. exact packagelock_struct_exact_lemma. Qed.
+Print Assumptions packagelock_struct_exact.
+
+Definition ex_npm_rs : list npm_rec :=
+  [ {| nr_prefix := []; nr_name := [64;115;47;110]; nr_version := [49;46;48] |};
+    {| nr_prefix := [110;111;100;101;95;109;111;100;117;108;101;115;47;64;115;47;110;47]; nr_name := [108]; nr_version := [50] |} ].
+Example packagelock_example_wf : wf_packagelock ex_npm_rs = true.
+Proof. vm_compute. reflexivity. Qed.
+Example packagelock_example_run :
+  extract_packagelock (struct_of_packagelock true ex_npm_rs) = Ok [([64;115;47;110], [49;46;48]); ([108], [50])].
+Proof. vm_compute. reflexivity. Qed.
+
+(* go.mod: every requirement (distinct module paths, leading v removed) plus the stdlib entry carrying the
+   go directive's version.  replace / toolchain directives: correspondence only. *)
+Theorem gomod_struct_exact : forall rs, wf_gomod rs = true ->
+  extract_gomod (struct_of_gomod rs) = Ok (expected_gomod rs).
+Proof. exact gomod_struct_exact_lemma. Qed.
+Print Assumptions gomod_struct_exact.
